@@ -191,6 +191,69 @@ def run(ctx):
         if len(samples) < 2:
             samples.append({"messages": [_codec.cls_name(classes, ci) for ci, *_ in msgs], "leading": lead.hex(),
                             "trailing": trail.hex(), "stream_bytes": len(ref)})
+    # sequences of "twins": consecutive messages whose field values compare (and hash) equal in Python and yet are different
+    # values of the Kafka type - the same wall-clock reading in a repeated DST hour with fold 0 / fold 1, and 0.0 / -0.0.
+    # Each message's bytes must be those of ITS value (reference encoder), whatever was written just before.
+    import dataclasses as _dc
+    import datetime as _dt
+    import zoneinfo as _zi
+    from .. import refenc
+    from ..values import describe, from_py
+
+    def map_leaves(o, f):
+        if _dc.is_dataclass(o) and not isinstance(o, type):
+            return _dc.replace(o, **{fl.name: map_leaves(getattr(o, fl.name), f) for fl in _dc.fields(o)})
+        if isinstance(o, tuple):
+            return tuple(map_leaves(x, f) for x in o)
+        return f(o)
+
+    def has_kind(cls, kinds, depth=0):
+        return any(d.kafka in kinds or (d.ent is not None and depth < 4 and has_kind(d.ent, kinds, depth + 1)) for d in describe(cls))
+
+    twin_sets = []
+    for zname, y, mo, dd, hh in (("America/New_York", 2021, 11, 7, 1), ("Europe/Berlin", 2023, 10, 29, 2), ("Australia/Lord_Howe", 2024, 4, 7, 1)):
+        z = _zi.ZoneInfo(zname)
+        twin_sets.append([_dt.datetime(y, mo, dd, hh, 30, 5, 250000, tzinfo=z, fold=fo) for fo in (0, 1, 0)])
+        twin_sets.append([_dt.datetime(y, mo, dd, hh, 30, 5, 250000, tzinfo=z, fold=fo) for fo in (1, 0, 1)])
+    float_sets = [[0.0, -0.0, 0.0], [-0.0, 0.0, -0.0]]
+    twin_classes = [i for i in range(n_schema) if has_kind(classes[i], {"datetime_i64", "float64"})]
+    n_twin = 0
+    for rep in range(2 if ctx["tier"] == "quick" else 12):
+        for ci in twin_classes:
+            cls = classes[ci]
+            base = None
+            for _ in range(8):
+                inst = to_py(cls, gen.entity(cls))
+                if map_leaves(inst, lambda o: "T" if isinstance(o, (_dt.datetime, float)) and not isinstance(o, bool) else o) != inst:
+                    base = inst
+                    break
+            if base is None:
+                continue
+            for ti in range(max(len(twin_sets), len(float_sets))):
+                dts, fls = twin_sets[ti % len(twin_sets)], float_sets[ti % len(float_sets)]
+                seq = [map_leaves(base, lambda o, j=j: dts[j] if isinstance(o, _dt.datetime) else fls[j] if isinstance(o, float) else o) for j in range(3)]
+                out = io.BytesIO()
+                try:
+                    cuts = []
+                    for m in seq:
+                        entity_writer(cls)(out, m)
+                        cuts.append(out.tell())
+                except Exception as e:  # noqa
+                    bad.append({"what": f"writing a sequence of equal-but-distinct values raised {cc.err_name(e)}", "class": _codec.cls_name(classes, ci)})
+                    continue
+                n_twin += 1
+                data = out.getvalue()
+                start = 0
+                for j, m in enumerate(seq):
+                    want = refenc.enc_entity(refenc.decorate(gen, cls, from_py(m), 0.0, 0.0))
+                    got = data[start:cuts[j]]
+                    start = cuts[j]
+                    if got != want:
+                        bad.append({"what": f"message {j + 1} of a sequence whose values compare equal in Python but are different Kafka values "
+                                            f"was written with other bytes than its own value's encoding", "class": _codec.cls_name(classes, ci),
+                                    "values": [repr(x) + f" fold={x.fold}" for x in dts[:j + 1]] if has_kind(cls, {"datetime_i64"}) else [repr(x) for x in fls[:j + 1]],
+                                    "written": got.hex()[:300], "reference": want.hex()[:300]})
+                        break
     failing, errors = cc.run_coq_cases(ctx["build"], "C07", model_cases)
     viol = []
     if errors:
@@ -208,7 +271,7 @@ def run(ctx):
         "rule": "random sequences of 1-8 (header, payload) pairs of arbitrary API classes on one stream with random leading/"
                 "trailing bytes; sinks: BytesIO, write-only copying object, write-only queueing object (keeps the chunk it was handed), BufferedWriter on a file, asyncio.StreamWriter over a pipe; "
                 "sources: BytesIO, read(n)-only object, BufferedReader with a 7-byte buffer; every sequence is distinct",
-        "messages": n_msgs, "sink_kinds": sink_kinds, "model_cases": len(model_cases), "samples": samples,
+        "equal_but_distinct_value_sequences": n_twin, "messages": n_msgs, "sink_kinds": sink_kinds, "model_cases": len(model_cases), "samples": samples,
         "property_failures_on_implementation": len(bad), "correspondence_disagreements": len(failing),
     }
     return {"violations": viol, "coverage": cov}
